@@ -10,6 +10,26 @@ CLAIMS = {
   note="Trusts the harness reference formulas for ground distance (M, N radii) and the catalogue's transcription of each operator's documented domain.",
   technique="runtime monitoring: inverse-pair residual monitor over generated parameterisations and inputs",
   ref="DESIGN.md §2 C01"),
+ "C02": dict(
+  text="Held on the executions observed: per-tuple results are bit-identical between the whole set, singles, a random permutation, every chunk boundary (small sets) or random boundaries, a repetition on a fresh copy and after arbitrary histories of applies on the same handle; counts of elementary operators are additive; every supported container gives what the 4D route gives in the dimensions it stores.",
+  note="Two routes inside one build (no external reference). For multi-step pipelines the container clause is checked with 4D containers only, because the container itself carries the intermediate results between steps (a 2D or f32 container legitimately loses what the next step needs).",
+  technique="runtime monitoring: two-route bit-equality monitor over generated sets, orders, chunkings, containers and apply histories",
+  ref="DESIGN.md §2 C02"),
+ "C03": dict(
+  text="Held on the executions observed: pipelines generated from an AST (never parsed by the harness) equal the reference interpreter that applies each step as a stand-alone operator, forward and inverse, bit for bit and in count, for every modifier spelling on elementary, single-step-macro and pipeline-macro steps nested to depth 4 (thorough 8); the trace hook's executed/skipped step sequence and per-step counts equal the model's.",
+  note="Trusts the stand-alone elementary operators (checked by C01/C02) and the 40-line reference interpreter; stack steps are excluded here (C12).",
+  technique="runtime monitoring: executable reference model over generated programs, plus online trace-specification check on hooked step events",
+  ref="DESIGN.md §2 C03"),
+ "C04": dict(
+  text="Held on the executions observed: invocations over generated macro DAGs (all binding forms, argument names in every lexical order, nested forwarding, inv in any position) behave as the reference expansion evaluated by the C03 interpreter, or both are errors; cyclic resource graphs (length 1-6, through pipelines) and chains to depth 50 return a value or an error without panic, abort, stack overflow (8 MiB and 2 MiB stacks) or confirmed hang.",
+  note="Error::Recursion is accepted as the documented resource limit for chains that come near 100 nesting units (4 per macro level). An argument the caller cannot resolve is an error where it is demanded and counts as absent where a default exists (the statement leaves this corner open).",
+  technique="runtime monitoring: reference expander + interpreter over generated macro sets; crash/hang monitor on cyclic and deep resource graphs",
+  ref="DESIGN.md §2 C04"),
+ "C07": dict(
+  text="Held on the executions observed: f(0) is the translation at the tuple's epoch, the linear part is orthogonal with det +1 in exact mode and equals the EPSG GN7-2 matrix of the declared convention, distances scale by 1+s, PV(r) and CF(-r) agree bit for bit in small-angle mode, scalar and list parameter forms agree bit for bit, the 4th element is untouched, dynamic sets with mixed (and NaN) epochs equal static operators evaluated at each tuple's epoch, t_obs equals giving each tuple that epoch, inverses meet their bounds, and molodensky stays within its bound of the cart|helmert|cart path for pairs of built-in ellipsoids.",
+  note="Reference matrices and per-epoch parameters are computed in the harness from the parameter values it generated. Molodensky bound: 5 mm + (D²/a)/cos(lat) (+ 2·D·(e²+|h|/a) abridged).",
+  technique="runtime monitoring: independent reference model (EPSG matrices, per-epoch static operators) and invariant monitor over generated parameter sets",
+  ref="DESIGN.md §2 C07"),
  "C09": dict(
   text="Held on the executions observed: no panic, abort or confirmed hang over grammar-generated and byte-mutated definitions (every operator name and gamut key from the hook), macros, PROJ text, hostile coordinates in both directions and direct calls of the ellipsoid/angular/tokenizer APIs, in debug-semantics and release-semantics builds.",
   note="'Never hangs' is restated as bounded progress: a case that burns 10 CPU-seconds is re-run alone for 20 more before it is called a hang. Trusts catch_unwind + the write-ahead log to attribute crashes.",
